@@ -5,7 +5,7 @@ CONSTANTS
   Bounds <- B3tiny
   OpenRanges <- OR1
   BaseInit <- BaseA
-  SetVals <- ValById
+  SetVals <- ValNest
   MaxW = 2
   MaxDepth = 2
   MaxIt = 0
